@@ -62,6 +62,9 @@ def leaf(E, params):
         if o.status == 'C': L.concrete(cnt['T'] == o.n, f'cursor travel {cnt["T"]} differs from the consumed length n={o.n}: the cursor was rewound or moved by something else')
         L.concrete(maxr <= RMAX, f'buffer byte {max(cnt["R"], key=cnt["R"].get) if cnt["R"] else None} is read {maxr} times (> {RMAX})')
     viol = L.finish(common.predicted_json(E, I, o))
+    for v in viol:
+        if params.get('family'): v['rel'] = 'work'; v['family'] = params['family']
+        else: v['rel'] = 'work_counter'
     lab = common.outcome_label(o)
     rec = {'outcome': lab, 'obligations': L.nobl, 'violations': viol, 'witnesses': {lab: 1},
            'extra': {'max_reads_per_byte': {'all': maxr}}}
